@@ -131,9 +131,16 @@ Section Imported.
   Definition is_imported (n : string) (file : path) : bool := mem_str n (imported file).
 
   (** ** [find_closest_definition_with_filter] *)
+  (** the last binding of the name in module [m], if the filter accepts it *)
+  Definition last_binding (flt : fdef -> bool) (dn : list fdef) (m : path) : option fdef :=
+    match max_by_key d_line (filter (fun d => path_eqb (d_file d) m) dn) with
+    | Some d => if flt d then Some d else None
+    | None => None
+    end.
+
   Definition conftest_step (flt : fdef -> bool) (dn : list fdef) (n : string) (dir : path) : option fdef :=
     let c := conftest_py :: dir in
-    match max_by_key d_line (filter (fun d => path_eqb (d_file d) c && flt d) dn) with
+    match last_binding flt dn c with
     | Some d => Some d
     | None =>
         if (disk_file dk c || in_cache s c) && is_imported n c
@@ -146,7 +153,7 @@ Section Imported.
     match dn with
     | [] => None
     | _ =>
-      match max_by_key d_line (filter (fun d => path_eqb (d_file d) F && flt d) dn) with
+      match last_binding flt dn F with
       | Some d => Some d
       | None =>
         match F with
@@ -168,11 +175,12 @@ Section Imported.
   Definition closest_excluding (F : path) (n : string) (ex : fdef) : option fdef :=
     closest_with (fun d => negb (fdef_eqb d ex)) F n.
 
-  (** [get_fixture_definition_at_line]: first hit of [definitions.iter()]; the model
-      iterates in registration order (two definitions of different names on one
-      line make the real answer iteration-order dependent: excluded class) *)
+  (** [get_fixture_definition_at_line]: the definition whose function spans the line;
+      first hit of [definitions.iter()]; the model iterates in registration order (two
+      definitions of different names spanning one line make the real answer
+      iteration-order dependent: excluded class) *)
   Definition def_at_line (F : path) (line : N) : option fdef :=
-    find (fun d => path_eqb (d_file d) F && N.eqb (d_line d) line) (defs s).
+    find (fun d => path_eqb (d_file d) F && (d_line d <=? line) && (line <=? d_end_line d)) (defs s).
 
   (** [get_definition_at_line] (by name) *)
   Definition def_at_line_named (F : path) (line : N) (n : string) : option fdef :=
@@ -222,6 +230,59 @@ Section Imported.
           | Some u => resolve_usage F target (u_name u)
           end
         end
+      end
+    end.
+
+  (** ** [find_fixture_or_definition_at_position] *)
+  Definition line_text (F : path) (line0 : N) : option string :=
+    match content dk s F with
+    | None => None
+    | Some c => nth_error (c_lines c) (N.to_nat line0)
+    end.
+
+  Definition goto_or_def (F : path) (line0 col : N) : option fdef :=
+    match goto F line0 col with
+    | Some d => Some d
+    | None =>
+      match line_text F line0 with
+      | None => None
+      | Some text =>
+        match word_at text col with
+        | None => None
+        | Some w =>
+            find (fun d => path_eqb (d_file d) F && N.eqb (d_line d) (line0 + 1)
+                           && (d_start d <=? col) && (col <? d_end d))
+                 (defs_named s w)
+        end
+      end
+    end.
+
+  (** ** [find_fixture_at_position] *)
+  Definition name_at (F : path) (line0 col : N) : option string :=
+    match line_text F line0 with
+    | None => None
+    | Some text =>
+      let w := word_at text col in
+      match find (fun u => N.eqb (u_line u) (line0 + 1) && (u_start u <=? col) && (col <? u_end u))
+                 (usages_of_file s F) with
+      | Some u => Some (u_name u)
+      | None =>
+        match find (fun d => path_eqb (d_file d) F && N.eqb (d_line d) (line0 + 1)
+                             && opt_eqb String.eqb w (Some (d_name d))) (defs s) with
+        | Some d => Some (d_name d)
+        | None => None
+        end
+      end
+    end.
+
+  (** the definition the references handler works on (providers/references.rs) *)
+  Definition refs_target (F : path) (line0 col : N) : option fdef :=
+    match name_at F line0 col with
+    | None => None
+    | Some nm =>
+      match goto F line0 col with
+      | Some d => Some d
+      | None => def_at_line_named F (line0 + 1) nm
       end
     end.
 
